@@ -39,6 +39,8 @@ type Router struct {
 	statePath   string
 	services    *ServiceMap
 	serviceLock sync.RWMutex
+
+	snapshotLock sync.Mutex
 }
 
 type ServiceDescription struct {
@@ -326,6 +328,11 @@ func (r *Router) findOrCreateService(name string, options ServiceOptions, target
 }
 
 func (r *Router) saveStateSnapshot() error {
+	// Snapshots are serialised, so that the listing of an earlier one can
+	// never overwrite the file written by a later one.
+	r.snapshotLock.Lock()
+	defer r.snapshotLock.Unlock()
+
 	services := []*Service{}
 	r.withReadLock(func() error {
 		for _, service := range r.services.All() {
@@ -334,19 +341,39 @@ func (r *Router) saveStateSnapshot() error {
 		return nil
 	})
 
-	f, err := os.Create(r.statePath)
-	if err != nil {
-		return err
+	// Write the new snapshot next to the state file and rename it into place
+	// once it is complete: whenever the process dies, the state file is
+	// either the previous snapshot or the new one, never a partial one.
+	tmpPath := r.statePath + ".tmp"
+	err := r.writeStateSnapshot(tmpPath, services)
+	if err == nil {
+		err = os.Rename(tmpPath, r.statePath)
 	}
-
-	err = json.NewEncoder(f).Encode(services)
 	if err != nil {
 		slog.Error("Unable to save state", "error", err, "path", r.statePath)
+		os.Remove(tmpPath)
 		return err
 	}
 
 	slog.Debug("Saved state", "path", r.statePath)
 	return nil
+}
+
+func (r *Router) writeStateSnapshot(path string, services []*Service) error {
+	f, err := os.Create(path)
+	if err != nil {
+		return err
+	}
+
+	err = json.NewEncoder(f).Encode(services)
+	if err == nil {
+		err = f.Sync()
+	}
+	if closeErr := f.Close(); err == nil {
+		err = closeErr
+	}
+
+	return err
 }
 
 func (r *Router) serviceForRequest(req *http.Request) (*Service, string) {
